@@ -148,6 +148,17 @@ def check(case, ctx):
     if np.any(np.abs(cv.astype(np.float64) - refc) > tolc):
         k = int(np.argmax(np.abs(cv - refc)))
         raise Violation("fftconvolve:values", f"{ctxt}: element {k} got {cv[k]!r} want {refc[k]!r}")
+    # convolution commutes: the kernel may be given first and the (longer) series second
+    cv2 = call("fftconvolve", lambda: kernels.fftconvolve(y, x))
+    if cv2.shape != (Lc,) or np.any(np.abs(cv2.astype(np.float64) - refc) > tolc):
+        k = int(np.argmax(np.abs(cv2.astype(np.float64) - refc))) if cv2.shape == (Lc,) else -1
+        raise Violation("fftconvolve:short-operand-first", f"{ctxt}: fftconvolve(kernel[{m}], series[{n}]) element {k}: got {cv2[k] if k >= 0 else cv2.shape!r} want {refc[k] if k >= 0 else Lc!r}")
+    # and the short series may be correlated against the longer one (lags -(n-1)..m-1)
+    if n * m <= 200000:
+        crs = call("correlate", lambda: _ts(y.copy(), tsamp).correlate(x))
+        refs = np.correlate(y64, x64, "full")
+        if crs.data.shape != refs.shape or np.any(np.abs(crs.data.astype(np.float64) - refs) > tolc):
+            raise Violation("correlate:other-longer-than-series", f"{ctxt}: a {m}-sample series correlated with a {n}-sample operand differs from the full correlation")
     cr = call("correlate", lambda: ts.correlate(y))
     lags = np.arange(-(m - 1), n)
     refr = np.array([sum(x64[i + k] * y64[i] for i in range(max(0, -k), min(m, n - k))) for k in lags]) if n * m <= 4096 \
